@@ -5,18 +5,47 @@ Mode: lattice sweep (complete products, nothing sampled). Sub-checks ("sub" of a
  chain1d   one case per (1-d model spec of mc.alphabets.model_specs, Levy and exponential, plus CGMY y in {1, 1.2, 1.5, 0.5}
            with the Brownian coefficient 0.2 written into the triplet after construction - sigma > 0 together with
            infinite-variation jumps, which no built-in model has; see _make_model for what is asserted on the exponential
-           versions  x  declared representation in
+           versions; plus the "reinit" twins of mc.alphabets.with_reinit (same values reached as the calibration helpers do:
+           parameter object built with other values, attributes re-assigned, initialisation(), model constructor) on the
+           un-refined grids - thorough: every spec, quick: one Levy and one exponential twin of hem / merton / vg /
+           cgmy y=0.5 / cgmy y=1.2  x  declared representation in
            {as constructed, ZERO, CENTER, ONEONE, TILDE}, set with model.levy_triplet.set_representation(R) BEFORE the chain
            is built  x  grid spec of mc.alphabets.grid_specs  x  0..k refinements).  The real MarkovChainProcess is built
            (once per sampling method of the case), initialisation(product) is called, and these are observed:
            process_drift(); the per-state rates in two independent ways - (m) the process's own truncated model mass() on
            reference cells re-derived from the axis with the grid's middle(), (s) the law of the sampler actually built,
-           recovered exactly by bisection of its single-uniform entry point (checks.c02_samplers.recover_partition) times
+           recovered exactly by bisection of its single-uniform entry point (mc.c04_util.recover_partition) times
            intensity_of_jumps; equivalent_diffusion_coefficient; the caller's model before and after.
+           Then the HISTORY menu is applied, in order, to that ONE process object (first sampling method); after every
+           operation process_drift(), equivalent_diffusion_coefficient, the slope of deterministic_path and the caller's model
+           (declared drift, sigma, representation, drift(), density inside and outside the truncation) are observed again, and
+           3 paths are simulated through the public route pre_computation(3, product) / simulate_one_path() with every random
+           draw scripted (mc.c04_util: 2 jumps per interval, generic jump times, identifiable normals):
+             simulate                         (no new initialisation: the fixed-times simulator of the first one)
+             init-again                       initialisation(vanilla on the spot, maturity 1) a second time - what an engine does
+                                              at every pricing
+             init-other-product               initialisation(yearly Asian forward, maturity 2: two intervals)
+             init-stochastic-dates            initialisation(CDS on a default time): the jump-times simulator
+             init-max-step                    initialisation(vanilla, max_step_epsilon=0.3): the maximum-step simulator
+             init-max-step-beyond-maturity    max_step_epsilon=2.0 >= maturity
+             init-stochastic-dates-max-step   initialisation(CDS, max_step_epsilon=0.3)
+             reset-cost-then-init             reset_one_simulation_cost(), initialisation(vanilla)
+             other-object-then-init           another chain (model of the OTHER variation class, other grid, jump-times simulator
+                                              with maximum step) built and initialised in between; copula chains: also a chain of
+                                              the SAME model on the SAME grid object with the other n-d sampling method
+                                              (its drift and diffusion matrix must be the same), and one of the margins reversed
+             deepcopy-then-init               copy.deepcopy(process).initialisation(vanilla): the copy and the original
+           Finally (cases with <= 1 refinement) the route the multilevel engine takes to a refinement level: the grid OBJECT of
+           the case, already used by the chains above, goes to CouplingMarkovChain(model, method, grid).initialisation(product);
+           next_level(0, None, product) refines it in place and builds the next chain: mean identity (cell masses), added
+           variance of that chain, and the coupling's equivalent_diffusion_coefficient_fine / _coarse.
  copula    one case per (pair of margins in both orders of finite / infinite variation, or triple with the infinite-variation
            margin first, in the middle or last; Levy and exponential, copula, representation applied to every margin that
-           admits it, 2-d / 3-d grid, refinements): MarkovChainLevyCopula, initialisation(product), _process_drift per margin,
-           and _path_simulation.diffusion_matrix.
+           admits it or MIXED = margin k declared in (CENTER, ONEONE, TILDE)[k % 3], 2-d / 3-d grid, refinements):
+           MarkovChainLevyCopula, initialisation(product), _process_drift per margin, _path_simulation.diffusion_matrix, the
+           same HISTORY menu on the one process object, and (2-d, un-refined fixed / geometric-bounds / credit grids; quick:
+           Clayton only) the drift per margin of the fine process of CouplingProcessLevyCopula after next_level on the re-used
+           grid object.
 
 Oracles (T = [axis[0], axis[-1]] the truncation of the grid, (a, sigma, nu) the caller's triplet in its declared representation
 R with cut-off c_R of mc.oracle.cutoff, all integrals by quadrature of the model's OWN density nu.__call__):
@@ -26,11 +55,23 @@ R with cut-off c_R of mc.oracle.cutoff, all integrals by quadrature of the model
                process with exponent i u a + int (e^{iux} - 1 - i u x c_R(x)) nu_T(dx) has mean a + int_T x (1 - c_R) nu per unit
                time; model.drift() is the (r - d + omega) of exponential models, 0 for Levy models. With c_R = alpha 1{|x|<1} +
                beta 1{|x|>=1}: ZERO (0,0), CENTER (1,1), ONEONE (1,0), TILDE = ZERO for finite variation else ONEONE.
-               Asserted for the rates (m) [key C04:mean] and for each sampler law (s) [key C04:sampler-mean:<method>].
+               Asserted for the rates (m) [key C04:mean] and for each sampler law (s) [key C04:sampler-mean:<method>], and (m)
+               for the chain after next_level [key ...:after-next-level].  deterministic_path(t) - what every simulated path is
+               added to - must grow by process_drift per unit time [key C04:mean:Process.deterministic_path].
+ history       after every operation of the menu process_drift() and equivalent_diffusion_coefficient (copula: D D^T) are those
+               of the first initialisation (rtol 1e-12 of the largest term of the mean identity): the mean identity is a
+               property of the approximation, not of how often or for which product it was initialised; the caller's model is
+               untouched [keys C04:history:...:changes-after-<operation>].
  conversion    the drift declared after set_representation(R) = a0 + int_R x (c_R - c_R0)(x) nu(dx), (a0, R0) as constructed
                (full measure: the conversion happens on the caller's un-truncated model).
  variance      equivalent_diffusion_coefficient^2 - sigma^2 = int_{central cell ^ [-1,1]} x^2 nu for infinite-variation models,
-               = 0 for finite-variation models (central cell = between the two cell boundaries next to the origin).
+               = 0 for finite-variation models (central cell = between the two cell boundaries next to the origin); also for the
+               chain after next_level, whose coupling must carry that coefficient as ..._fine and the one of the chain of the
+               level before as ..._coarse.
+ simulated-variance  the simulated diffusion increments of every simulator (fixed-times, jump-times, maximum-step; 1-d and copula)
+               are D z sqrt(dt) for ONE D (least squares over all steps of 3 paths, residual <= 1e-9) with D^2 =
+               equivalent_diffusion_coefficient^2 = sigma^2 + variance of the central-cell jumps (1-d), D D^T = that of the
+               diffusion matrix (copula): the small-jump variance is part of EVERY simulated approximation.
  variance-bound  |sum_{k != 0} x_k^2 rate_k - int_{T \\ central} x^2 nu| <= sum_{k != 0} osc_k(x^2) mass_k, and the statement's total
                |sigma_eq^2 + sum_k x_k^2 rate_k - (sigma^2 + int_T x^2 nu)| <= sum_{k != 0} osc_k(x^2) mass_k + (finite variation:
                int_central x^2 nu, which is <= osc_0 mass_0 and finite even when mass_0 is not), mass_k by quadrature.
@@ -38,7 +79,10 @@ R with cut-off c_R of mc.oracle.cutoff, all integrals by quadrature of the model
                (cells of axis k, arithmetic middles, nu_k the margin's own density): the deterministic drift of margin k
                compensates the states of axis k weighted by the MARGINAL cell masses, exactly as the 1-d chain of that margin.
  copula-variance  D = _path_simulation.diffusion_matrix:  D D^T = diag(sigma_k^2) for finite-variation copula models (exact);
-               for infinite-variation ones D D^T = diag(sigma_k^2) + C, C_ij = int_{central box} x_i x_j nu(dx) computed from the
+               for infinite-variation ones with the scripted pool (all cases but the "diffusion" ones) D D^T = diag(sigma_k^2) + F,
+               F the known positive definite matrix of (co)variances the stand-in pool answered with (exact: the answers are
+               added once, as (co)variances, in dimension 2 and 3); with the real vol_adjustment_ij ("diffusion" cases) D D^T =
+               diag(sigma_k^2) + C, C_ij = int_{central box} x_i x_j nu(dx) computed from the
                definition (integration by parts against mc.oracle.ref_rectangle_mass), within the library's own requested
                quadrature accuracy (nquad epsabs 1e-3 propagated: 2.2e-3/h on the diagonal, 1.1e-3 off it, d = 2).
 
@@ -51,11 +95,15 @@ Outside the alphabet (statement silent or quantity does not exist), never an ala
  * copula chains: the jump part weighted by the JOINT rates differs from the marginal sum by the mass of jumps whose OTHER
    coordinate leaves the box (a truncation effect: which process "the truncated process" is for a margin of a box-truncated
    copula model is not fixed by the statement); it is measured and written to the evidence samples ("leak"), not judged.
-   In dimension 3 only the drift (and the diffusion matrix of finite-variation triples) is observed: the small-jump
-   covariance of an infinite-variation triple takes > 200 s.
+   In dimension 3 the small-jump covariance itself is not computed (an infinite-variation triple takes > 200 s): only what the
+   library does with the pool's answers.
  * infinite-variation copula chains are constructed with the pathos pool of MCLevyCopulaSimulation replaced by a stand-in:
-   zero results where only the drift is observed, an in-process synchronous pool (the real vol_adjustment_ij) in the
-   "diffusion" cases (1 quick, 4 thorough).
+   scripted non-zero answers (_scripted_covariance) everywhere but in the "diffusion" cases (1 quick, 4 thorough), which use
+   an in-process synchronous pool running the real vol_adjustment_ij and, every initialisation costing 5 - 30 s there, only the
+   first operation of the history menu;
+ * a process re-initialised after its grid object was refined by somebody else (the library builds a new process then);
+ * steps of a simulated path shorter than 1e-9 (residual duplicate times of the maximum-step refinement: C15's subject);
+ * the jump component of the simulated paths (C15) and the law of the states drawn (C02): only the diffusion component is read.
 """
 from __future__ import annotations
 
@@ -73,9 +121,11 @@ from mc import oracle as O
 PID = "C04"
 LEVEL = "exploration"
 RULE = (
-    "complete product (1-d model spec x declared representation x grid spec x refinements; margin pair x copula x "
-    "representation x 2-d grid x refinements); a case is non-trivial when process_drift plus the rate-weighted states was "
-    "compared with a quadrature mean whose own error estimate was below the tolerance; distinct = distinct case dict"
+    "complete product (1-d model spec incl. reinit twins x declared representation x grid spec x refinements; margin pair / "
+    "triple x copula x representation incl. MIXED x 2-d / 3-d grid x refinements), each case followed by the complete HISTORY "
+    "menu on its one process object and, where flagged, the coupling's next_level on its one grid object; a case is non-trivial "
+    "when process_drift plus the rate-weighted states was compared with a quadrature mean whose own error estimate was below "
+    "the tolerance; distinct = distinct case dict"
 )
 ASSUMPTIONS = [
     "oracle integrals are scipy QUADPACK (mpmath tanh-sinh fallback) quadratures of the model's own density nu.__call__, split "
@@ -83,12 +133,16 @@ ASSUMPTIONS = [
     "error estimate is below the tolerance, otherwise oracle_inconclusive is counted",
     "nu.jump_of_finite_variation() is trusted to define the TILDE cut-off and which variance rule applies",
     "tolerances: mean rtol 1e-9 (finite variation) / 1e-8 (infinite variation) of the largest term, atol 1e-13; sampler laws add "
-    "4 ulp(1) x intensity x sum|x_k| (break points are located to 1 ulp of the uniform)",
+    "4 ulp(1) x intensity x sum|x_k| (break points are located to 1 ulp of the uniform); histories rtol 1e-12",
     "sampler law: no piece of the map u -> state lies strictly between two agreeing probes of the initial dyadic sweep "
     "(n0 >= 16 x number of states), as in C02; the inversion sampler's hidden numpy.random.choice is scripted (first element)",
-    "infinite-variation copula chains: pathos pool of MCLevyCopulaSimulation replaced by a zero stand-in (drift cases) or an "
-    "in-process synchronous pool running the real vol_adjustment_ij (diffusion cases); the reference central-box covariance "
+    "infinite-variation copula chains: pathos pool of MCLevyCopulaSimulation replaced by a stand-in with scripted non-zero "
+    "answers keyed by the first two arguments (i, j) of the submitted call (drift cases) or an in-process synchronous pool "
+    "running the real vol_adjustment_ij (diffusion cases); the reference central-box covariance "
     "shares the copula function and the margins' integrate with the library (checked in C09/C11/C12)",
+    "simulated paths: every draw of the library goes through the numpy.random module functions replaced by mc.c15_util."
+    "ScriptedRNG (constant jump counts, generic times and normals); the standard normals of one numpy.random.normal call are laid "
+    "out component-major or step-major (both tried); a protocol the script does not recognise is counted, never an alarm",
 ]
 CHUNK = 4
 
@@ -96,6 +150,7 @@ INF = math.inf
 EPS = float(np.finfo(float).eps)
 ATOL = 1e-13
 REPS = [None, "ZERO", "CENTER", "ONEONE", "TILDE"]
+MIXED = ["CENTER", "ONEONE", "TILDE"]  # copula chains, "MIXED": margin k declared in MIXED[k % 3]
 METHODS_QUICK = ["INVERSION", "BINARYSEARCHTREEADAPTED1D"]
 METHODS_THOROUGH = ["INVERSION", "BINARYSEARCHTREEADAPTED1D", "ALIAS", "BINARYSEARCHTREE", "HUFFMANNTREE"]
 
@@ -143,6 +198,23 @@ def cases(tier):
         for exp in (False, True):
             ms = {"family": "cgmy", "exp": exp, "params": {"c": 1.0, "g": 15.0, "m": 20.0, "y": y}, "triplet_sigma": 0.2}
             specs.append(dict(ms, r=0.02, d=0.0, spot=100.0) if exp else ms)
+    # the construction route of the calibration helpers ("reinit" twin of mc.alphabets.with_reinit: parameter object built with
+    # other values - a finite-variation CGMY donor for the infinite-variation targets -, attributes re-assigned,
+    # initialisation(), model constructor): thorough every spec, quick one Levy and one exponential twin per family and the two
+    # CGMY variation classes
+    if thorough:
+        specs = A.with_reinit(specs)
+    else:
+        seen = set()
+        twins = []
+        for ms in specs:
+            y = ms["params"].get("y")
+            key = (ms["family"], bool(ms.get("exp")), y)
+            if key in seen or ms.get("triplet_sigma") is not None or (ms["family"] == "cgmy" and y not in (0.5, 1.2)):
+                continue
+            seen.add(key)
+            twins.append(dict(ms, via="reinit"))
+        specs = specs + twins
     grids = A.grid_specs(tier, dimension=1)
     # simplest first: as constructed on un-refined grids
     for k in ks:
@@ -150,10 +222,13 @@ def cases(tier):
             for ms in specs:
                 if rep == "ZERO" and not _spec_fv(ms):
                     continue
+                if ms.get("via") == "reinit" and k:
+                    continue  # the twins differ in how the model was reached, not in the grid: un-refined grids only
                 for g in grids:
                     if k == 2 and not thorough and g["kind"] in ("uniform", "probability"):
                         continue  # quick: the second refinement only on the small grids
-                    out.append({"sub": "chain1d", "model": ms, "rep": rep, "grid": dict(g, refine=k), "methods": methods})
+                    out.append({"sub": "chain1d", "model": ms, "rep": rep, "grid": dict(g, refine=k), "methods": methods,
+                                "history": True, "next_level": k <= 1})
     # copula chains, d = 2 (both orders of a finite- and an infinite-variation margin) and d = 3 (drift only)
     pairs = [("hem", "vg"), ("cgmy05", "cgmy12"), ("cgmy12", "vg"), ("cgmy12", "hem")]
     cops = [{"kind": "clayton", "theta": 0.7, "eta": 0.3}, {"kind": "independent"}]
@@ -161,25 +236,27 @@ def cases(tier):
         pairs += [("hem", "hem2"), ("vg", "cgmy12"), ("merton", "cgmy05"), ("cgmy12", "cgmy12"), ("cgmy12", "hem2")]
         cops = A.copula_specs(tier)
     for k in (0, 1):
-        for rep in REPS:
+        for rep in REPS + ["MIXED"]:
             for exp in (False, True):
                 for pair in pairs:
                     for cop in cops:
                         for g in COPULA_GRIDS:
                             if k == 1 and not thorough and g["kind"] not in ("fixed", "credit"):
                                 continue
+                            # next level through the coupling: the small grids (quick: clayton only), from level 0
+                            nl = k == 0 and g["kind"] in ("fixed", "geometric-bounds", "credit") and (thorough or cop["kind"] == "clayton")
                             out.append({"sub": "copula", "model": {"margins": list(pair), "copula": cop, "exp": exp}, "rep": rep,
-                                        "grid": dict(g, refine=k), "diffusion": False})
+                                        "grid": dict(g, refine=k), "diffusion": False, "history": True, "next_level": nl})
     triples = [("hem", "cgmy12", "vg"), ("cgmy12", "hem", "vg")] + ([("hem", "vg", "cgmy12"), ("hem", "vg", "cgmy05")] if thorough else [])
     grids3 = [{"kind": "fixed", "h": 0.1, "n": 3}, {"kind": "geometric-bounds", "h": 0.1, "bounds": [-0.7, 0.4], "n_side": 3},
               {"kind": "credit", "h": 0.1, "a_frac": [0.4, 0.5, 0.6], "symmetric": False}]
     for k in ((0, 1) if thorough else (0,)):
-        for rep in REPS:
+        for rep in REPS + ["MIXED"]:
             for exp in (False, True):
                 for tr in triples:
                     for g in grids3:
                         out.append({"sub": "copula", "model": {"margins": list(tr), "copula": cops[0], "exp": exp}, "rep": rep,
-                                    "grid": dict(g, refine=k), "diffusion": False})
+                                    "grid": dict(g, refine=k), "diffusion": False, "history": True})
     # the real small-jump covariance of infinite-variation copula chains (slow: nquad of the library + reference)
     diff = [(("cgmy05", "cgmy12"), {"kind": "clayton", "theta": 0.7, "eta": 0.3}, {"kind": "fixed", "h": 0.1, "n": 3}, False)]
     if thorough:
@@ -190,7 +267,7 @@ def cases(tier):
         ]
     # listed first only so that these few slow cases (5 - 30 s each) overlap with the rest of the sweep
     slow = [{"sub": "copula", "model": {"margins": list(pair), "copula": cop, "exp": exp}, "rep": None,
-             "grid": dict(g, refine=0), "diffusion": True} for pair, cop, g, exp in diff]
+             "grid": dict(g, refine=0), "diffusion": True, "history": True} for pair, cop, g, exp in diff]
     return slow + out
 
 
@@ -209,6 +286,8 @@ def _mclass(spec):
         s = fam + (":alt" if p else ":default")
     if spec.get("triplet_sigma") is not None:
         s += f":sigma={spec['triplet_sigma']:g}"
+    if spec.get("via") == "reinit":
+        s += ":reinit"
     return ("exp-" if spec.get("exp") else "") + s
 
 
@@ -362,6 +441,56 @@ def _product():
         return prod
 
 
+def _products():
+    """the products of the history menu: what selects the simulator is payoff_dates_type (and max_step_epsilon); the time grid
+    and the maturity come from the underlying.  {"vanilla-1": deterministic dates, one interval [0, 1];  "asian-2": deterministic
+    dates, yearly averaging, two intervals, maturity 2;  "cds-1": stochastic payoff dates (credit payoff on a default time),
+    maturity 1}"""
+    from rpylib.product.payoff import PayoffDates, PayoffOnTheFly, Forward
+    from rpylib.product.product import Product
+    from rpylib.product.underlying import Asian, Discretisation, Spot
+
+    out = {"vanilla-1": _product(),
+           "asian-2": Product(payoff_underlying=Asian(Discretisation.YEARLY), payoff=Forward(strike=0.0), maturity=2.0)}
+    try:
+        from rpylib.product.payoff import CDS
+        from rpylib.product.underlying import DefaultTime
+
+        out["cds-1"] = Product(payoff_underlying=DefaultTime(default_level=-0.3),
+                               payoff=CDS(recovery_rate=0.4, spread=0.01, maturity=1.0, discounting=lambda t: math.exp(-0.02 * t)),
+                               maturity=1.0)
+        if out["cds-1"].payoff.payoff_dates_type != PayoffDates.STOCHASTIC:
+            raise ValueError("CDS payoff without stochastic dates")
+    except Exception:
+        pay = PayoffOnTheFly(lambda x: x)
+        pay.payoff_dates_type = PayoffDates.STOCHASTIC
+        out["cds-1"] = Product(payoff_underlying=Spot(), payoff=pay, maturity=1.0)
+    return out
+
+
+# the history menu: operations applied IN THIS ORDER to ONE process object after its first initialisation (an engine calls
+# initialisation(product) at the start of every pricing, CouplingSDE / MarkovChainSDE pass max_step_epsilon, credit products
+# have stochastic payoff dates).  (name, product, max_step_epsilon, what is done before the initialisation)
+HISTORY = [
+    ("simulate", None, None, None),  # no new initialisation: pre_computation + paths with the simulator of the first one
+    ("init-again", "vanilla-1", None, None),
+    ("init-other-product", "asian-2", None, None),
+    ("init-stochastic-dates", "cds-1", None, None),
+    ("init-max-step", "vanilla-1", 0.3, None),
+    ("init-max-step-beyond-maturity", "vanilla-1", 2.0, None),
+    ("init-stochastic-dates-max-step", "cds-1", 0.3, None),
+    ("reset-cost-then-init", "vanilla-1", None, "reset-cost"),
+    ("other-object-then-init", "vanilla-1", None, "other-object"),
+    ("deepcopy-then-init", "vanilla-1", None, "deepcopy"),
+]
+
+
+def _mode(prod_key, eps):
+    if eps is not None:
+        return "maximum-step"
+    return "jump-times" if prod_key == "cds-1" else "fixed-times"
+
+
 def _well_formed(axis, origin):
     return (len(axis) >= 3 and 0 < origin < len(axis) - 1 and all(math.isfinite(x) for x in axis)
             and all(x < y for x, y in zip(axis, axis[1:])) and axis[origin] == 0.0)
@@ -423,12 +552,12 @@ def _sampler_rates(proc, grid, method, nstates):
     """{axis index: rate} of the sampler actually built, law recovered exactly through its single-uniform entry point."""
     import numpy.random as npr
 
-    from checks import c02_samplers as C2
+    from mc import c04_util as C2
 
     orig = npr.choice
     npr.choice = lambda a, *args, **kw: list(a)[0]
     try:
-        f, hi = C2.single_entry(proc, {"method": method})
+        f, hi = C2.single_entry(proc, method)
         n0 = 1 << max(10, int(math.ceil(math.log2(16 * max(nstates, 1)))))
         extra = C2.alias_edges(len(grid.axes[0]), hi) if method == "ALIAS" else ()
         pieces, evals, hi = C2.recover_partition(f, n0, 0.0, hi, extra=extra)
@@ -473,6 +602,8 @@ def _chain1d(sh, case):
     rtol = 1e-9 if fv else 1e-8
     tail = f"{mc}:{rep}:{gc}"
     product = _product()
+    fp_points = [1.5 * lo, 0.25 * axis[o - 1], 0.25 * axis[o + 1], 1.5 * hi]
+    fp0 = _fingerprint(model, fp_points)
 
     procs = {}
     for meth in case["methods"]:
@@ -613,12 +744,229 @@ def _chain1d(sh, case):
     else:
         sh.count("oracle_inconclusive")
 
+    # ---- histories on the re-used process object, the simulators' Brownian scale, the coupling's route to the next level
+    if case.get("history", True):
+        var_want = sigma ** 2 if fv else (sigma ** 2 + q_c if e_c <= 1e-8 * abs(q_c) + 1e-300 else None)
+        _history_1d(sh, label, tail, vtail, model, first, bool(spec.get("exp")), fv, pd, sig_eq, scale, var_want, fp0, fp_points)
+    if case.get("next_level"):
+        _next_level_1d(sh, label, tail, vtail, model, grid, case["methods"][-1], a, sigma, nu, rep, fv, drift, jump_mean, err, lo, hi,
+                       sig_eq)
+
     sh.outcome((round(pd, 9) if math.isfinite(pd) else repr(pd), round(want, 9), round(sig_eq, 9) if math.isfinite(sig_eq) else "nan"))
     if gspec["kind"] == "fixed" and gspec.get("n") == 5:
         sh.sample({"sub": "chain1d", "model": _label(spec), "declared": rep, "requested": rep_req, "grid": gspec,
                    "points": len(axis), "process_drift": pd, "sum_x_rate": sum(axis[k] * r for k, r in rates_m.items()),
                    "expected_mean": want, "a": a, "model_drift": drift, "int_T_x(1-c)nu": jump_mean,
                    "sigma_eq^2-sigma^2": added, "int_central_x^2_nu": q_c})
+
+
+# ----------------------------------------------------------------------------------------------------------------------
+# histories on one process object; the Brownian scale the simulators really apply
+# ----------------------------------------------------------------------------------------------------------------------
+
+def _fingerprint(model, points):
+    """what a chain must leave alone in the caller's model: declared drift, sigma, representation, model.drift(), and the
+    density at a few points inside and OUTSIDE the grid's truncation (the chain truncates its own copy)"""
+    tr = model.levy_triplet
+    vals = [repr(_real(tr.a)), repr(_real(tr.sigma)), getattr(tr.representation, "name", str(tr.representation)),
+            repr(_real(model.drift()))]
+    for x in points:
+        try:
+            vals.append(repr(float(tr.nu(float(x)))))
+        except Exception as e:  # noqa
+            vals.append(type(e).__name__)
+    return tuple(vals)
+
+
+def _slope(proc, dim):
+    """slope of deterministic_path (the deterministic part every simulated path is added to) over [0, 1] and [0, 2], and the
+    absolute accuracy of the subtraction"""
+    dp = np.asarray(proc.deterministic_path(np.array([0.0, 1.0, 2.0])), dtype=float).reshape(dim, 3)
+    s1 = dp[:, 1] - dp[:, 0]
+    s2 = 0.5 * (dp[:, 2] - dp[:, 0])
+    acc = 16 * EPS * (np.abs(dp[:, 0]) + np.abs(dp[:, 2]))
+    return s1, s2, acc
+
+
+def _disturbing_chain(fv, exp, products):
+    """a second object of the same class built, initialised (other simulator) in between: another model of the OTHER variation
+    class on another grid - state kept in class attributes, module-level caches or shared default arguments would leak"""
+    from rpylib.distribution.sampling import SamplingMethod
+    from rpylib.process.markovchain.markovchain import MarkovChainProcess
+
+    donor = ({"family": "cgmy", "exp": False, "params": {"c": 0.7, "g": 9.0, "m": 11.0, "y": 1.5}} if fv else
+             {"family": "hem", "exp": False, "params": dict(A.DONOR_PARAMS["hem"])})
+    if exp:
+        donor = dict(donor, exp=True, r=0.07, d=0.03, spot=50.0)
+    m = A.make_model(donor)
+    g = A.make_grid({"kind": "fixed", "h": 0.07, "n": 4}, m)
+    other = MarkovChainProcess(model=m, method=SamplingMethod.INVERSION, grid=g)
+    other.initialisation(products["cds-1"], max_step_epsilon=0.2)
+    return other
+
+
+def _history_1d(sh, label, tail, vtail, model, proc, exp, fv, pd0, sig0, scale, var_want, fp0, fp_points):
+    """the HISTORY menu on one MarkovChainProcess; after every operation: process_drift(), equivalent_diffusion_coefficient,
+    the slope of deterministic_path, the caller's model, and - through pre_computation + simulate_one_path under the scripted
+    random source - the coefficient that really multiplies the Brownian variates."""
+    import copy
+
+    from mc.c04_util import ProtocolError, Rng, simulated_brownian_scale
+
+    products = _products()
+    rng = Rng()
+    current = ("vanilla-1", None)
+    flagged_modes = set()
+    with rng.installed():
+        for name, pk, eps, pre in HISTORY:
+            targets = [proc]
+            try:
+                if pre == "reset-cost":
+                    proc.reset_one_simulation_cost()
+                elif pre == "other-object":
+                    _disturbing_chain(fv, exp, products)
+                elif pre == "deepcopy":
+                    targets = [copy.deepcopy(proc), proc]
+                if pk is not None:
+                    targets[0].initialisation(products[pk], max_step_epsilon=eps)
+                    current = (pk, eps)
+                mode = _mode(*current)
+                sh.cls(f"history:{name}")
+                for idx, target in enumerate(targets):
+                    who = "" if idx == 0 and len(targets) == 1 else (" (the copy)" if idx == 0 else " (the original)")
+                    pd = _real(target.process_drift())
+                    sig = _real(target.equivalent_diffusion_coefficient)
+                    sh.count("evaluations", 2)
+                    if not core.close(pd, pd0, rtol=1e-12, atol=1e-15, scale=scale):
+                        sh.violation(f"C04:history:MarkovChainProcess.process_drift:changes-after-{name}:{tail}",
+                                     f"{label}: process_drift() was {pd0!r} after the first initialisation (mean identity checked), "
+                                     f"is {pd!r} after {name}{who} ({pk}, max_step_epsilon={eps})", {"first": pd0, "now": pd})
+                        return
+                    if not core.close(sig, sig0, rtol=1e-12, atol=1e-300):
+                        sh.violation(f"C04:history:equivalent_diffusion_coefficient:changes-after-{name}:{vtail}",
+                                     f"{label}: equivalent_diffusion_coefficient was {sig0!r}, is {sig!r} after {name}{who}", None)
+                        return
+                    s1, s2, acc = _slope(target, 1)
+                    sh.count("evaluations")
+                    if not (abs(s1[0] - pd) <= acc[0] + 1e-15 and abs(s2[0] - pd) <= acc[0] + 1e-15):
+                        sh.violation(f"C04:mean:Process.deterministic_path:slope-differs-from-process_drift:{tail}",
+                                     f"{label}: after {name}{who} deterministic_path grows by {s1[0]!r} over [0,1] and {s2[0]!r} per unit "
+                                     f"time over [0,2], process_drift() = {pd!r}", None)
+                        return
+                    fp = _fingerprint(model, fp_points)
+                    if fp != fp0:
+                        sh.violation(f"C04:history:MarkovChainProcess:changes-the-callers-model-after-{name}:{tail}",
+                                     f"{label}: (a, sigma, representation, drift(), nu at {fp_points}) was {fp0}, is {fp} after {name}",
+                                     None)
+                        return
+                    if idx > 0:
+                        continue  # the original of a deep copy keeps its simulator: already simulated
+                    res = simulated_brownian_scale(target, products[current[0]], 1, rng)
+                    if "unrecognised" in res:
+                        sh.count("simulated-variance-not-observable")
+                        sh.cap("C04: the Brownian scale of a simulator was not observable (protocol of the random draws not recognised)")
+                        sh.note(f"C04 history {name}: {res['unrecognised']}")
+                        continue
+                    sh.cls(f"simulator:chain:{mode}")
+                    sh.count("evaluations")
+                    sh.count("simulated_steps", res["columns"])
+                    d2 = float(res["D"][0, 0]) ** 2
+                    ok = res["residual"] <= 1e-9 * max(res["scale"], 1e-300)
+                    if ok:
+                        ok = core.close(d2, sig0 ** 2, rtol=1e-9, atol=1e-30)
+                        if ok and var_want is not None:
+                            ok = core.close(d2, var_want, rtol=1e-7, atol=1e-30)
+                    if not ok and mode not in flagged_modes:
+                        flagged_modes.add(mode)
+                        sh.violation(
+                            f"C04:simulated-variance:chain:{mode}:brownian-scale-differs-from-equivalent-diffusion-coefficient:{vtail}",
+                            f"{label}: after {name} ({pk}, max_step_epsilon={eps}) the simulated diffusion increments are "
+                            f"{float(res['D'][0, 0])!r} x sqrt(dt) x normal (fit residual {res['residual']:.3g} over {res['columns']} "
+                            f"steps); equivalent_diffusion_coefficient = {sig0!r}, sigma^2 + variance of the central-cell jumps = "
+                            f"{var_want!r}", {"simulated_coefficient": float(res["D"][0, 0]), "sigma_eq": sig0, "mode": mode})
+            except ProtocolError as e:
+                sh.count("history-not-scriptable")
+                sh.cap("C04: a history was cut short (a random draw the script does not foresee)")
+                sh.note(f"C04 history {name}: {e!r}")
+                return
+            except Exception as e:  # noqa
+                sh.violation(f"C04:history:MarkovChainProcess:raises-{type(e).__name__}:after-{name}:{tail}",
+                             f"{label}: {name} ({pk}, max_step_epsilon={eps}): {e!r}", None)
+                return
+
+
+def _next_level_1d(sh, label, tail, vtail, model, grid, method, a, sigma, nu, rep, fv, drift, jump_mean, jm_err, lo, hi, sig0):
+    """the route the multilevel engine takes to a refinement level: ONE grid object used by a chain, refined in place by
+    CouplingMarkovChain.next_level, used by the next chain.  Mean identity (cell masses) and added variance of that chain."""
+    from rpylib.distribution.sampling import SamplingMethod
+    from rpylib.process.coupling.couplingmarkovchain import CouplingMarkovChain
+
+    product = _product()
+    try:
+        cp = CouplingMarkovChain(model=model, method=SamplingMethod[method], grid=grid)
+        cp.initialisation(product)
+        cp.next_level(mc_paths=0, path_managers=None, product=product)
+        fine, g = cp.fine_process, cp.grid
+        pd = _real(fine.process_drift())
+        sig_eq = _real(fine.equivalent_diffusion_coefficient)
+        axis = [float(x) for x in g.axes[0]]
+        o = int(getattr(g.origin_coordinate, "value", g.origin_coordinate))
+    except Exception as e:  # noqa
+        sh.violation(f"C04:mean:CouplingMarkovChain.next_level:raises-{type(e).__name__}:{tail}", f"{label}: {e!r}", None)
+        return
+    if not _well_formed(axis, o) or (axis[0], axis[-1]) != (lo, hi):
+        sh.count("outside-alphabet:next-level-grid")
+        return
+    sh.cls("route:coupling-next-level")
+    # the Brownian scales the coupling simulators apply to the fine and to the coarse path: those of the chain of this level
+    # and of the chain of the level before (the chain of this case, built on the same grid before its refinement)
+    for attr, ref, what in (("equivalent_diffusion_coefficient_fine", sig_eq, "the new fine chain"),
+                            ("equivalent_diffusion_coefficient_coarse", sig0, "the chain of the level before")):
+        val = getattr(cp, attr, None)
+        if val is None:
+            sh.count("coupling-coefficient-not-observable")
+            continue
+        sh.count("evaluations")
+        if not core.close(_real(val), ref, rtol=1e-12, atol=1e-300):
+            sh.violation(f"C04:variance:CouplingMarkovChain.{attr}:differs-from-the-chain-of-its-level:{vtail}",
+                         f"{label}: after next_level {attr} = {_real(val)!r}, equivalent_diffusion_coefficient of {what} = {ref!r}",
+                         None)
+    cells, central = O.ref_cells(axis, o, middle=g.middle)
+    s1 = s_abs = 0.0
+    for x, cell in zip(axis, cells):
+        if cell is not None:
+            m = max(_real(fine.model.mass(float(cell[0]), float(cell[1]))), 0.0)
+            s1 += x * m
+            s_abs += abs(x) * m
+    rtol = 1e-9 if fv else 1e-8
+    want = drift + a + jump_mean
+    scale = max(abs(pd) if math.isfinite(pd) else 0.0, s_abs, abs(a), abs(drift), abs(jump_mean), 1e-300)
+    if jm_err <= ATOL + rtol * scale:
+        sh.count("evaluations")
+        if not core.close(pd + s1, want, rtol=rtol, atol=ATOL, scale=scale):
+            sh.violation(
+                f"C04:mean:MarkovChainProcess.process_drift:mean-differs-from-truncated-process:{tail}:after-next-level",
+                f"{label}: fine process of CouplingMarkovChain after next_level ({len(axis)} points): process_drift {pd!r} + "
+                f"sum x_k mass(cell_k) = {pd + s1!r}, expected {want!r}", {"process_drift": pd, "expected": want})
+    else:
+        sh.count("oracle_inconclusive")
+    central = (float(central[0]), float(central[1]))
+    if fv:
+        sh.count("evaluations")
+        if not core.close(sig_eq ** 2, sigma ** 2, rtol=1e-12, atol=1e-300):
+            sh.violation(f"C04:variance:equivalent_diffusion_coefficient:variance-added-for-a-finite-variation-model:{vtail}:after-next-level",
+                         f"{label}: after next_level equivalent_diffusion_coefficient^2 = {sig_eq ** 2!r}, sigma^2 = {sigma ** 2!r}", None)
+        return
+    q_c, e_c = _int(nu, max(central[0], -1.0), min(central[1], 1.0), 2)
+    if e_c <= 1e-8 * abs(q_c) + 1e-300:
+        sh.count("evaluations")
+        if not core.close(sig_eq ** 2 - sigma ** 2, q_c, rtol=1e-8, atol=1e-12 * sigma ** 2, scale=max(abs(q_c), sigma ** 2 * 1e-4)):
+            sh.violation(
+                f"C04:variance:equivalent_diffusion_coefficient:not-the-variance-of-the-central-cell-jumps:{vtail}:after-next-level",
+                f"{label}: after next_level equivalent_diffusion_coefficient^2 - sigma^2 = {sig_eq ** 2 - sigma ** 2!r}, int over the "
+                f"central cell {central} of x^2 nu = {q_c!r}", None)
+    else:
+        sh.count("oracle_inconclusive")
 
 
 # ----------------------------------------------------------------------------------------------------------------------
@@ -633,9 +981,19 @@ class _Result:
         return self.v
 
 
+def _scripted_covariance(i, j):
+    """the answers of the stand-in pool: a fixed symmetric, strictly diagonally dominant (hence positive definite) matrix of
+    small-jump (co)variances, NOT zero, so that what the library does with the answers is visible in the diffusion matrix"""
+    i, j = min(i, j), max(i, j)
+    return 0.03 + 0.01 * i if i == j else 0.004 * (1 + i + j)
+
+
 class _StandInPool:
-    """stand-in for pathos' Pool inside MCLevyCopulaSimulation: `real` runs the function in-process, else returns 0.0"""
+    """stand-in for pathos' Pool inside MCLevyCopulaSimulation: `real` runs the function in-process, else the answer for
+    vol_adjustment_ij(i, j, ...) is _scripted_covariance(i, j) (0.0 when the arguments are not recognised); what was handed
+    out is recorded in `handed` {(i, j): value}"""
     real = False
+    handed = {}
 
     def __init__(self, *a, **k):
         pass
@@ -647,7 +1005,16 @@ class _StandInPool:
         return False
 
     def apply_async(self, func, args=(), kwds=None):
-        return _Result(func(*args, **(kwds or {})) if self.real else 0.0)
+        if self.real:
+            return _Result(func(*args, **(kwds or {})))
+        v = 0.0
+        if len(args) >= 2 and all(isinstance(x, (int, np.integer)) for x in args[:2]):
+            i, j = int(args[0]), int(args[1])
+            v = _scripted_covariance(i, j)
+            type(self).handed[(min(i, j), max(i, j))] = v
+        else:
+            type(self).handed[None] = 0.0
+        return _Result(v)
 
 
 class _SyncPool(_StandInPool):
@@ -661,11 +1028,26 @@ def _pool(real):
     old = getattr(M, "mp", None)
     ns = _Obj()
     ns.Pool = _SyncPool if real else _StandInPool
+    _StandInPool.handed = {}
     M.mp = ns
     try:
         yield
     finally:
         M.mp = old
+
+
+def _handed_matrix(dim):
+    """the matrix of the answers the stand-in pool gave (None when it was not asked or did not recognise the question)"""
+    h = _StandInPool.handed
+    if not h or None in h:
+        return None
+    f = np.zeros((dim, dim))
+    for i in range(dim):
+        for j in range(i, dim):
+            if (i, j) not in h:
+                return None
+            f[i, j] = f[j, i] = h[(i, j)]
+    return f
 
 
 def _central_covariance(copula, nus, h2, i, j):
@@ -704,6 +1086,111 @@ def _central_covariance(copula, nus, h2, i, j):
     return tot, err
 
 
+def _history_copula(sh, label, spec, gspec, model, margins, grid, proc, dim, pd0, var0, scales, fp0, fp_points, real_pool):
+    """the HISTORY menu on one MarkovChainLevyCopula (with the real small-jump covariance, whose every initialisation costs
+    5 - 30 s, only the simulation after the first initialisation)."""
+    import copy
+
+    from mc.c04_util import ProtocolError, Rng, simulated_brownian_scale
+    from rpylib.distribution.sampling import SamplingMethod
+    from rpylib.process.markovchain.markovchainlevycopula import MarkovChainLevyCopula
+
+    names = spec["margins"]
+    pair = ("exp-" if spec.get("exp") else "") + "+".join(names)
+    gc = _gclass(gspec)
+    products = _products()
+    rng = Rng()
+    current = ("vanilla-1", None)
+    flagged_modes = set()
+    vscale = max(float(np.max(np.abs(var0))), 1e-300)
+    menu = HISTORY[:1] if real_pool else HISTORY
+    with _pool(False), rng.installed():
+        for name, pk, eps, pre in menu:
+            targets = [proc]
+            try:
+                if pre == "reset-cost":
+                    proc.reset_one_simulation_cost()
+                elif pre == "other-object":
+                    # the same model on the same grid object with the other n-d sampling method (its drift must be the same),
+                    # and a chain of the margins in reverse order on another grid
+                    twin = MarkovChainLevyCopula(levy_copula_model=model, grid=grid, method=SamplingMethod.BINARYSEARCHTREEADAPTED)
+                    twin.initialisation(products["cds-1"], max_step_epsilon=0.2)
+                    targets = [proc, twin]
+                    rev = A.make_copula_model(dict(spec, margins=list(reversed(names))))
+                    other = MarkovChainLevyCopula(levy_copula_model=rev, method=SamplingMethod.INVERSION,
+                                                  grid=A.make_grid({"kind": "fixed", "h": 0.07, "n": 3}, rev, dim))
+                    other.initialisation(products["asian-2"])
+                elif pre == "deepcopy":
+                    targets = [copy.deepcopy(proc), proc]
+                if pk is not None:
+                    targets[0].initialisation(products[pk], max_step_epsilon=eps)
+                    current = (pk, eps)
+                mode = _mode(*current)
+                sh.cls(f"copula-history:{name}")
+                for idx, target in enumerate(targets):
+                    who = "" if len(targets) == 1 else f" (object {idx} of {len(targets)})"
+                    pd = np.asarray(target.process_drift(), dtype=complex).reshape(-1)
+                    sh.count("evaluations", 2)
+                    bad = [k for k in range(dim) if pd.size != dim or not core.close(_real(pd[k]), pd0[k], rtol=1e-12, atol=1e-15,
+                                                                                    scale=scales[k])]
+                    if bad:
+                        sh.violation(f"C04:history:MarkovChainLevyCopula.process_drift:changes-after-{name}:{pair}:{gc}",
+                                     f"{label}: process_drift() was {pd0} after the first initialisation (mean identity checked per "
+                                     f"margin), is {[_real(x) for x in pd]} after {name}{who} ({pk}, max_step_epsilon={eps})",
+                                     {"first": list(pd0), "now": [_real(x) for x in pd], "margins": bad})
+                        return
+                    dm = np.asarray(target._path_simulation.diffusion_matrix, dtype=complex)
+                    var = (dm @ dm.T).real
+                    if not np.allclose(var, var0, rtol=0.0, atol=1e-10 * vscale + 1e-300):
+                        sh.violation(f"C04:history:MCLevyCopulaSimulation.diffusion_matrix:changes-after-{name}:{pair}",
+                                     f"{label}: D D^T was {var0.tolist()}, is {var.tolist()} after {name}{who}", None)
+                        return
+                    s1, s2, acc = _slope(target, dim)
+                    sh.count("evaluations")
+                    pdr = np.array([_real(x) for x in pd])
+                    if not (np.all(np.abs(s1 - pdr) <= acc + 1e-15) and np.all(np.abs(s2 - pdr) <= acc + 1e-15)):
+                        sh.violation(f"C04:mean:Process.deterministic_path:slope-differs-from-process_drift:copula:{pair}",
+                                     f"{label}: after {name}{who} deterministic_path grows by {s1.tolist()} over [0,1] and "
+                                     f"{s2.tolist()} per unit time over [0,2], process_drift() = {pdr.tolist()}", None)
+                        return
+                    fp = [_fingerprint(m, pts) for m, pts in zip(margins, fp_points)]
+                    if fp != fp0:
+                        sh.violation(f"C04:history:MarkovChainLevyCopula:changes-the-callers-model-after-{name}:{pair}",
+                                     f"{label}: per margin (a, sigma, representation, drift(), nu at {fp_points}) was {fp0}, is {fp} "
+                                     f"after {name}", None)
+                        return
+                    if idx > 0:
+                        continue
+                    res = simulated_brownian_scale(target, products[current[0]], dim, rng)
+                    if "unrecognised" in res:
+                        sh.count("simulated-variance-not-observable")
+                        sh.cap("C04: the Brownian scale of a simulator was not observable (protocol of the random draws not recognised)")
+                        sh.note(f"C04 copula history {name}: {res['unrecognised']}")
+                        continue
+                    sh.cls(f"simulator:copula-chain:{mode}")
+                    sh.count("evaluations")
+                    sh.count("simulated_steps", res["columns"])
+                    svar = res["D"] @ res["D"].T
+                    ok = res["residual"] <= 1e-9 * max(res["scale"], 1e-300)
+                    ok = ok and np.allclose(svar, var0, rtol=0.0, atol=1e-8 * vscale + 1e-30)
+                    if not ok and mode not in flagged_modes:
+                        flagged_modes.add(mode)
+                        sh.violation(
+                            f"C04:simulated-variance:copula-chain:{mode}:brownian-covariance-differs-from-diffusion-matrix:{pair}",
+                            f"{label}: after {name} ({pk}, max_step_epsilon={eps}) the simulated diffusion increments are D z sqrt(dt) "
+                            f"with D D^T = {svar.tolist()} (fit residual {res['residual']:.3g} over {res['columns']} steps); the "
+                            f"diffusion matrix gives {var0.tolist()}", {"simulated": svar.tolist(), "expected": var0.tolist()})
+            except ProtocolError as e:
+                sh.count("history-not-scriptable")
+                sh.cap("C04: a history was cut short (a random draw the script does not foresee)")
+                sh.note(f"C04 copula history {name}: {e!r}")
+                return
+            except Exception as e:  # noqa
+                sh.violation(f"C04:history:MarkovChainLevyCopula:raises-{type(e).__name__}:after-{name}:{pair}:{gc}",
+                             f"{label}: {name} ({pk}, max_step_epsilon={eps}): {e!r}", None)
+                return
+
+
 def _copula(sh, case):
     from rpylib.distribution.sampling import SamplingMethod
     from rpylib.process.markovchain.markovchainlevycopula import MarkovChainLevyCopula
@@ -721,13 +1208,14 @@ def _copula(sh, case):
     applied = []
     for k, mk in enumerate(margins):
         fvk = bool(mk.levy_triplet.nu.jump_of_finite_variation())
-        if rep_req == "ZERO" and not fvk:
+        rep_k = MIXED[k % len(MIXED)] if rep_req == "MIXED" else rep_req  # MIXED: another representation for every margin
+        if rep_k == "ZERO" and not fvk:
             applied.append(None)  # not admissible for that margin: left as constructed
             continue
         mspec = dict(A.MARGINS[names[k]], exp=exp)
-        if not _set_rep(sh, mk.levy_triplet, rep_req, _mclass(mspec), label + f" margin {k}"):
+        if not _set_rep(sh, mk.levy_triplet, rep_k, _mclass(mspec), label + f" margin {k}"):
             return
-        applied.append(rep_req)
+        applied.append(rep_k)
     fv_all = bool(model.jump_of_finite_variation())
     sh.cls("copula:" + ("finite" if fv_all else "infinite") + "-variation")
     sh.cls("copula-grid:" + gc)
@@ -743,11 +1231,14 @@ def _copula(sh, case):
         sh.count("outside-alphabet:grid-not-well-formed")
         return
     before = [(_real(m.levy_triplet.a), m.levy_triplet.representation.name) for m in margins]
+    fp_points = [[1.5 * ax[0], 0.25 * ax[o - 1], 0.25 * ax[o + 1], 1.5 * ax[-1]] for ax, o in zip(axes, origin)]
+    fp0 = [_fingerprint(m, pts) for m, pts in zip(margins, fp_points)]
     real_pool = bool(case.get("diffusion"))
     try:
         with _pool(real_pool):
             proc = MarkovChainLevyCopula(levy_copula_model=model, grid=grid, method=SamplingMethod.INVERSION)
             proc.initialisation(_product())
+            handed = _handed_matrix(dim)
     except Exception as e:  # noqa
         sh.violation(f"C04:copula-mean:MarkovChainLevyCopula:raises-{type(e).__name__}:{'+'.join(names)}:{gc}",
                      f"{label}: constructor / initialisation: {e!r}", None)
@@ -762,51 +1253,61 @@ def _copula(sh, case):
                      f"{label}: process_drift() has {pd.size} entries for {len(margins)} margins", None)
         return
     obs = []
-    for k, mk in enumerate(margins):
-        a, sigma, nu, rep, fv = _triplet(mk)
-        drift = _real(mk.drift())
-        pdk = _real(pd[k])
-        axis, o = axes[k], origin[k]
-        lo, hi = axis[0], axis[-1]
-        cells, central = O.ref_cells(axis, o)
-        s1 = s_abs = e1 = 0.0
-        for x, cell in zip(axis, cells):
-            if cell is None:
+    scales = []
+
+    def judge(pd, axes, origin, stage):
+        """the mean identity per margin for the drift vector pd of a chain on these axes (stage "" = the chain of the case,
+        otherwise a later chain on the re-used, refined grid object)"""
+        for k, mk in enumerate(margins):
+            a, sigma, nu, rep, fv = _triplet(mk)
+            drift = _real(mk.drift())
+            pdk = _real(pd[k])
+            axis, o = axes[k], origin[k]
+            lo, hi = axis[0], axis[-1]
+            cells, central = O.ref_cells(axis, o)
+            s1 = s_abs = e1 = 0.0
+            for x, cell in zip(axis, cells):
+                if cell is None:
+                    continue
+                m, e = _int(nu, cell[0], cell[1], 0)
+                s1 += x * m
+                s_abs += abs(x) * m
+                e1 += abs(x) * e
+            alpha, beta = _ab(rep, fv)
+            vin, ein, vout, eout = _x_in_out(nu, lo, hi, need_in=(alpha != 1.0))
+            jump_mean = (1.0 - alpha) * vin + (1.0 - beta) * vout
+            err = e1 + (1.0 - alpha) * ein + (1.0 - beta) * eout
+            want = drift + a + jump_mean
+            got = pdk + s1
+            scale = max(abs(pdk) if math.isfinite(pdk) else 0.0, s_abs, abs(a), abs(drift), abs(vin), abs(vout), 1e-300)
+            rtol = 1e-9 if fv else 1e-8
+            if not stage:
+                scales.append(scale)
+                obs.append((round(pdk, 9) if math.isfinite(pdk) else repr(pdk), round(want, 9)))
+            mix = ("finite" if fv else "infinite") + "-variation-margin-in-" + ("finite" if fv_all else "infinite") + "-variation-copula"
+            mix += ":axis-equals-axis-0" if axes[k] == axes[0] else ":axis-differs-from-axis-0"
+            sh.cls("margin:" + mix)
+            sh.cls("margin-declared:" + rep)
+            if not err <= ATOL + rtol * scale:
+                sh.count("oracle_inconclusive")
                 continue
-            m, e = _int(nu, cell[0], cell[1], 0)
-            s1 += x * m
-            s_abs += abs(x) * m
-            e1 += abs(x) * e
-        alpha, beta = _ab(rep, fv)
-        vin, ein, vout, eout = _x_in_out(nu, lo, hi, need_in=(alpha != 1.0))
-        jump_mean = (1.0 - alpha) * vin + (1.0 - beta) * vout
-        err = e1 + (1.0 - alpha) * ein + (1.0 - beta) * eout
-        want = drift + a + jump_mean
-        got = pdk + s1
-        scale = max(abs(pdk) if math.isfinite(pdk) else 0.0, s_abs, abs(a), abs(drift), abs(vin), abs(vout), 1e-300)
-        rtol = 1e-9 if fv else 1e-8
-        obs.append((round(pdk, 9) if math.isfinite(pdk) else repr(pdk), round(want, 9)))
-        mix = ("finite" if fv else "infinite") + "-variation-margin-in-" + ("finite" if fv_all else "infinite") + "-variation-copula"
-        mix += ":axis-equals-axis-0" if axes[k] == axes[0] else ":axis-differs-from-axis-0"
-        sh.cls("margin:" + mix)
-        sh.cls("margin-declared:" + rep)
-        if not err <= ATOL + rtol * scale:
-            sh.count("oracle_inconclusive")
-            continue
-        sh.count("evaluations")
-        sh.nontriv()
-        if not core.close(got, want, rtol=rtol, atol=ATOL, scale=scale):
-            sh.violation(
-                f"C04:copula-mean:MarkovChainLevyCopula.process_drift:margin-mean-differs-from-truncated-margin:{mix}:"
-                f"{_mclass(dict(A.MARGINS[names[k]], exp=exp))}:{rep}",
-                f"{label}: margin {k} ({names[k]}, {rep}): _process_drift[{k}] {pdk!r} + sum x_i nu_k(cell_i) = {got!r}; "
-                f"margin.drift() + a + int_T x (1 - c_{rep}) nu_k = {want!r} (bias {got - want:.6g} per unit time)",
-                {"margin": k, "process_drift": pdk, "chain_mean": got, "expected": want, "a": a, "model_drift": drift,
-                 "jump_mean": jump_mean, "truncation": [lo, hi], "quad_err": err})
+            sh.count("evaluations")
+            if not stage:
+                sh.nontriv()
+            if not core.close(got, want, rtol=rtol, atol=ATOL, scale=scale):
+                sh.violation(
+                    f"C04:copula-mean:MarkovChainLevyCopula.process_drift:margin-mean-differs-from-truncated-margin:{mix}:"
+                    f"{_mclass(dict(A.MARGINS[names[k]], exp=exp))}:{rep}{stage}",
+                    f"{label}{stage}: margin {k} ({names[k]}, {rep}): _process_drift[{k}] {pdk!r} + sum x_i nu_k(cell_i) = {got!r}; "
+                    f"margin.drift() + a + int_T x (1 - c_{rep}) nu_k = {want!r} (bias {got - want:.6g} per unit time)",
+                    {"margin": k, "process_drift": pdk, "chain_mean": got, "expected": want, "a": a, "model_drift": drift,
+                     "jump_mean": jump_mean, "truncation": [lo, hi], "quad_err": err})
+
+    judge(pd, axes, origin, "")
     # ---- measured, not judged: the jump part weighted by the joint rates (leak through the other coordinate's truncation)
     leak = None
     if dim == 2 and len(axes[0]) * len(axes[1]) <= 400:
-        from checks import c02_samplers as C2
+        from mc import c04_util as C2
 
         law = C2.target_law(proc, grid, 2)
         lam = float(proc.intensity_of_jumps)
@@ -835,6 +1336,16 @@ def _copula(sh, case):
             if not np.allclose(var, sig2, rtol=1e-12, atol=1e-300 + 1e-14 * float(np.max(sig2))):
                 sh.violation(f"C04:copula-variance:MCLevyCopulaSimulation.diffusion_matrix:variance-added-for-a-finite-variation-model:{pair}",
                              f"{label}: D D^T = {var.tolist()}, diag(sigma^2) = {sig2.tolist()}", None)
+        elif not real_pool and handed is not None:
+            # the stand-in pool answered with known small-jump (co)variances F: the variance per unit time of the Brownian part
+            # must be diag(sigma^2) + F - added once, as (co)variances
+            sh.count("evaluations")
+            want_var = sig2 + handed
+            if not np.allclose(var, want_var, rtol=0.0, atol=1e-10 * float(np.max(want_var))):
+                sh.violation(f"C04:copula-variance:MCLevyCopulaSimulation.diffusion_matrix:not-sigma2-plus-small-jump-covariance:{pair}",
+                             f"{label}: D D^T = {var.tolist()}; diag(sigma^2) + (co)variances returned for the small jumps = "
+                             f"{want_var.tolist()} (scripted answers of the pool: {handed.tolist()})", None)
+            sh.cls("copula-diffusion:scripted-small-jump-covariance")
         elif real_pool and dim == 2:
             h2 = 0.5 * float(grid.h)
             nus = [m.levy_triplet.nu for m in margins]
@@ -861,6 +1372,32 @@ def _copula(sh, case):
             sh.sample({"sub": "copula-diffusion", "case": case, "D": np.asarray(dm).real.tolist(), "D_DT": var.tolist(),
                        "expected": exp_var.tolist(), "max_abs_diff": worst})
             sh.cls("copula-diffusion:real-small-jump-covariance")
+    if case.get("history", True) and dm is not None:
+        pd0 = [_real(x) for x in pd]
+        _history_copula(sh, label, spec, gspec, model, margins, grid, proc, dim, pd0, var, scales, fp0, fp_points, real_pool)
+    # ---- the route the multilevel engine takes to the next level: the grid object of this case, used, refined in place by
+    # CouplingProcessLevyCopula.next_level, used by the next chain
+    if case.get("next_level"):
+        from rpylib.process.coupling.couplinglevycopula import CouplingProcessLevyCopula
+
+        try:
+            with _pool(False):
+                cp = CouplingProcessLevyCopula(levy_copula_model=model, grid=grid, method=SamplingMethod.INVERSION)
+                cp.initialisation(_product())
+                cp.next_level(mc_paths=0, path_managers=None, product=_product())
+                pd2 = np.asarray(cp.fine_process.process_drift(), dtype=complex).reshape(-1)
+                axes2 = [[float(x) for x in ax] for ax in cp.grid.axes]
+                origin2 = [int(c) for c in cp.grid.origin_coordinate]
+        except Exception as e:  # noqa
+            sh.violation(f"C04:copula-mean:CouplingProcessLevyCopula.next_level:raises-{type(e).__name__}:{'+'.join(names)}:{gc}",
+                         f"{label}: {e!r}", None)
+        else:
+            if (pd2.size == dim and all(_well_formed(ax, o) for ax, o in zip(axes2, origin2))
+                    and all((x[0], x[-1]) == (y[0], y[-1]) and len(x) > len(y) for x, y in zip(axes2, axes))):
+                sh.cls("copula-route:coupling-next-level")
+                judge(pd2, axes2, origin2, ":after-next-level")
+            else:
+                sh.count("outside-alphabet:next-level-grid")
     sh.outcome((obs, gc))
     if gspec["kind"] == "fixed" and gspec.get("n") == 5 and not gspec.get("refine"):
         sh.sample({"sub": "copula", "model": spec, "declared": [r for _, r in after], "grid": gspec,
